@@ -54,8 +54,14 @@ PROPS = {
              "§6 C08"),
     "C09": P("exploration", "none yet", ["san_sound", "san_of_move_standard", "san_roundtrip"],
              "differential vs Spec.San.write / Spec.San.denotes (declarative spellings)", "§6 C09", 0.6, 1.0),
-    "C10": P("exploration", "none yet", ["uci_text_roundtrip", "uci_semilegal_iff"],
-             "differential: all 20,481 UCI strings × sampled positions vs existence in Spec move sets", "§6 C10", 0.5),
+    "C10": P("proof", "uci_move_roundtrip: in every board with Shape (every validated position) each well-formed semilegal move, written "
+             "and read back in that position, is recovered with its kind (castling, double step, en passant, each promotion); "
+             "uci_parse_lang: the reader accepts exactly the writer's image; uci_semilegal_iff / uci_legal_iff: the checking readers "
+             "return mv exactly when mv is a well-formed semilegal (resp. legal by is_legal_unchecked) move spelled by the string; "
+             "uci_null_refused; uci_roundtrip_valid through bytes for validated positions",
+             ["'legal' in uci_legal_iff is the implementation's is_legal_unchecked; its agreement with the rules is C01/C02 (differential)"],
+             "Lean 4 theorems over all boards with Shape and all byte strings; differential on all 20,481 UCI strings × sampled positions ties the model to the code",
+             "§6 C10", 0.5),
     "C11": P("proof", "validate_ok_iff: conversion succeeds exactly when Spec.ValidRaw holds (one king and ≤16 men each, no pawn on a "
              "back rank, en-passant mark on the right rank, side not to move not in check); validate_err_sound: the reported reason "
              "holds; validate_ok: the result is Spec.normalise of the input (only unbacked rights / marks dropped) with consistent "
